@@ -61,6 +61,10 @@ struct Plan {
     /// vanish mode only, instead of a fixed instant: the server host disappears right after it has sent this many datagrams
     #[serde(skip_serializing_if = "Option::is_none")]
     vanish_after_server_packets: Option<u64>,
+    /// targeted loss: the first `n` transmissions, in the given direction ("c2s" | "s2c"), of stream packets that carry the
+    /// final offset (the end-of-stream signal: the last data packet or an empty packet after shutdown) are dropped
+    #[serde(skip_serializing_if = "Option::is_none")]
+    drop_fin: Option<(String, u32)>,
     /// real TCP runs only: the client's connection goes through a slow relay with minimal socket buffers (short writes)
     slow_tcp: bool,
     client_mtu: u16,
@@ -96,6 +100,7 @@ fn plan(seed: u64, rng: &mut StdRng, k: usize) -> Plan {
         drop_permille: if mode == "lossy" { [10u32, 50, 150][rng.random_range(0..3)] } else if by_count { [50u32, 150, 300][rng.random_range(0..3)] } else { 0 },
         vanish_after_server_packets: if by_count { Some(rng.random_range(1..expected + 6)) } else { None },
         slow_tcp: false,
+        drop_fin: if mode != "vanish" && rng.random_bool(0.4) { Some((["c2s", "s2c"][rng.random_range(0..2)].to_string(), rng.random_range(1..4))) } else { None },
         outage: if mode == "lossy" && rng.random_bool(0.5) { let f = [500u64, 3_000, 50_000][rng.random_range(0..3)]; Some((["c2s", "s2c", "both"][rng.random_range(0..3)].to_string(), f, f + [2_000u64, 300_000, 4_000_000][rng.random_range(0..3)])) } else { None },
         vanish_at_us: if mode == "vanish" && !by_count { [0u64, 700, 3_000, 200_000][rng.random_range(0..4)] } else { 0 },
         client_mtu, server_mtu,
@@ -301,6 +306,8 @@ fn run_sim_here(p: Plan) -> Vec<Value> {
             let vanish_at = if by_count.is_some() { None } else { vanish_at };
             let mut from_server = 0u64;
             let mut gone = false;
+            let drop_fin = p.drop_fin.clone();
+            let mut fin_dropped = 0u32;
             ::bach::net::monitor::on_packet_sent(move |packet| {
                 let t = now_us();
                 if server_ip.is_none() && packet.destination().port() == 443 { server_ip = Some(packet.destination().ip()); }
@@ -314,6 +321,18 @@ fn run_sim_here(p: Plan) -> Vec<Value> {
                             gone = true;
                             emit(json!({"ev": "vanished"}));
                             return ::bach::net::monitor::Command::Drop;
+                        }
+                    }
+                }
+                if let Some((dir, times)) = &drop_fin {
+                    if fin_dropped < *times && (dir == "c2s") == to_server {
+                        let mut raw = packet.transport.payload().to_vec();
+                        if let Ok((pkt, _)) = s2n_quic_dc::packet::stream::decoder::Packet::decode(s2n_codec::DecoderBufferMut::new(&mut raw), (), 16) {
+                            if pkt.is_fin() || pkt.final_offset().is_some() {
+                                fin_dropped += 1;
+                                emit(json!({"ev": "fin_dropped", "dir": dir, "len": pkt.payload().len()}));
+                                return ::bach::net::monitor::Command::Drop;
+                            }
                         }
                     }
                 }
